@@ -130,22 +130,41 @@ func c03Synthetic(r *core.Run, fDoneStatus *types.Var) {
 
 	var synth []*ssa.Send
 	var deliver []*ssa.Send
-	for _, b := range fn.Blocks {
-		for _, in := range b.Instrs {
-			s, ok := in.(*ssa.Send)
-			if !ok {
-				continue
-			}
-			if f, _ := core.FieldLoad(s.Chan); f != fPackageCh {
-				continue
-			}
-			v := core.Strip(s.X)
-			if al, ok := v.(*ssa.Alloc); ok && core.IsNamedType(al.Type(), core.Module+"/tds", doneT.Obj().Name()) {
-				synth = append(synth, s)
-			} else {
-				deliver = append(deliver, s)
+	// via[s] is the call in tryParsePackage through which a send located in a helper method (same receiver) is
+	// reached; nil for sends in tryParsePackage itself. One level of helpers is looked through.
+	via := map[*ssa.Send]ssa.CallInstruction{}
+	collect := func(f *ssa.Function, call ssa.CallInstruction) {
+		for _, b := range f.Blocks {
+			for _, in := range b.Instrs {
+				s, ok := in.(*ssa.Send)
+				if !ok {
+					continue
+				}
+				if f, _ := core.FieldLoad(s.Chan); f != fPackageCh {
+					continue
+				}
+				v := core.Strip(s.X)
+				if al, ok := v.(*ssa.Alloc); ok && core.IsNamedType(al.Type(), core.Module+"/tds", doneT.Obj().Name()) {
+					synth = append(synth, s)
+					if call != nil {
+						via[s] = call
+					}
+				} else if call == nil {
+					deliver = append(deliver, s)
+				}
 			}
 		}
+	}
+	collect(fn, nil)
+	for _, c := range core.Calls(fn) {
+		h := core.StaticCallee(c)
+		if h == nil || h == fn || !core.InModule(h) || len(h.Blocks) == 0 || len(h.Params) == 0 || len(c.Common().Args) == 0 || c.Common().Args[0] != ssa.Value(fn.Params[0]) {
+			continue
+		}
+		if _, isDefer := c.(*ssa.Defer); isDefer {
+			continue
+		}
+		collect(h, c)
 	}
 	if len(synth) == 0 {
 		r.Bad("R03.2", "tryParsePackage: synthetic DONE", fn.Pos(), "no send of a freshly built DonePackage found: a response whose last DONE is not final (or missing) is never terminated for the consumer")
@@ -168,15 +187,35 @@ func c03Synthetic(r *core.Run, fDoneStatus *types.Var) {
 
 		// path condition
 		bad := ""
-		core.EnumPaths(fn.Blocks[0], func(b *ssa.BasicBlock) bool { return b == s.Block() }, nil, 5000, func(pa core.Path, ended bool) {
-			if !ended && pa.Blocks[len(pa.Blocks)-1] != s.Block() {
-				return
+		// the branch decisions of every path from tryParsePackage's entry to the send (through the helper call, if any)
+		condsTo := func(f *ssa.Function, target *ssa.BasicBlock) [][]core.EdgeCond {
+			var out [][]core.EdgeCond
+			if f.Blocks[0] == target {
+				return [][]core.EdgeCond{nil}
 			}
-			if fn.Blocks[0] != s.Block() && !ended {
-				return
+			core.EnumPaths(f.Blocks[0], func(b *ssa.BasicBlock) bool { return b == target }, nil, 5000, func(pa core.Path, ended bool) {
+				if ended {
+					out = append(out, pa.Conds)
+				}
+			})
+			return out
+		}
+		var all [][]core.EdgeCond
+		if call := via[s]; call != nil {
+			for _, outer := range condsTo(fn, call.Block()) {
+				for _, inner := range condsTo(s.Parent(), s.Block()) {
+					all = append(all, append(append([]core.EdgeCond(nil), outer...), inner...))
+				}
 			}
+		} else {
+			all = condsTo(fn, s.Block())
+		}
+		if len(all) == 0 {
+			bad = "no path to the synthetic DONE could be enumerated"
+		}
+		for _, conds := range all {
 			byteFailed, eom, notFinal := false, false, false
-			for _, c := range pa.Conds {
+			for _, c := range conds {
 				if x, nn, ok := core.ErrNilTest(c.If.Cond); ok && nn == c.Pol {
 					if ex, isEx := x.(*ssa.Extract); isEx {
 						if call, isCall := ex.Tuple.(*ssa.Call); isCall && calleeName(call) == "Byte" {
@@ -215,11 +254,15 @@ func c03Synthetic(r *core.Run, fDoneStatus *types.Var) {
 			case !notFinal:
 				bad = "the synthetic DONE can be sent although the last delivered package already was a DONE with Status == FINAL: the consumer sees two final DONEs"
 			}
-		})
+		}
 		r.Check(bad == "", "R03.2", "tryParsePackage: synthetic DONE path condition", s.Pos(), "every path to the send has: token read failed ∧ IsEOM ∧ last package not DONE(FINAL)", bad)
 		// after the send the function returns false
 		retFalse := true
-		for b := range dominatedRegionOrSelf(s.Block()) {
+		after := s.Block()
+		if call := via[s]; call != nil {
+			after = call.Block()
+		}
+		for b := range dominatedRegionOrSelf(after) {
 			if ret, ok := b.Instrs[len(b.Instrs)-1].(*ssa.Return); ok {
 				c, isC := core.RetVals(ret)[0].(*ssa.Const)
 				if !isC || c.Value == nil || c.Value.ExactString() != "false" {
